@@ -70,9 +70,9 @@ class PrecipitationStoppingCondition:
         Returns bool for whether condition is satisfied or not
         '''
         if self._condition == Inequality.GREATER_THAN:
-            return self._poll(model, model.n) > self._value
+            return self._poll(model, model.pData.n) > self._value
         else:
-            return self._poll(model, model.n) < self._value
+            return self._poll(model, model.pData.n) < self._value
     
     def testCondition(self, model):
         '''
@@ -86,12 +86,12 @@ class PrecipitationStoppingCondition:
             self._isSatisfied = self._testCondition(model)
 
             if self._isSatisfied:
-                if model.n > 0:
-                    currVal, currTime = self._poll(model, model.n), model.time[model.n]
-                    prevVal, prevTime = self._poll(model, model.n-1), model.time[model.n-1]
+                if model.pData.n > 0:
+                    currVal, currTime = self._poll(model, model.pData.n), model.pData.time[model.pData.n]
+                    prevVal, prevTime = self._poll(model, model.pData.n-1), model.pData.time[model.pData.n-1]
                     self._satisfiedTime = (currTime - prevTime) * (self._value - prevVal) / (currVal - prevVal) + prevTime
                 else:
-                    self._satisfiedTime = model.time[model.n]
+                    self._satisfiedTime = model.pData.time[model.pData.n]
 
     def isSatisfied(self):
         '''
